@@ -410,6 +410,13 @@ impl Part for Piecewise {
             (Vehicle::read_le(&mut c).map(|t| format!("{t:?}")).map_err(|_| ()), c.position())
         })
         .map_err(|p| Fail::new("c13:panic", p))?;
+        // four bytes have no byte order: the endianness argument of the public BinRead impl must not matter
+        let be = guard(|| {
+            let mut c = std::io::Cursor::new(&bytes[..]);
+            (Vehicle::read_be(&mut c).map(|t| format!("{t:?}")).map_err(|_| ()), c.position())
+        })
+        .map_err(|p| Fail::new("c13:panic", p))?;
+        ensure!(be.0 == whole.0, "c13:depends-on-the-endianness-argument", "identifier {:02x?}: read_le gives {:?}, read_be gives {:?}", b, whole.0, be.0);
         for pattern in [&[1usize][..], &[2], &[3], &[3, 1], &[1, 3]] {
             let got = guard(|| {
                 let mut t = Trickle::new(&bytes[..], pattern);
